@@ -38,7 +38,7 @@ CHECKS = {
    "All 8 permission masks x every access path: 12 API accessors, instruction fetch, every canonical memory-touching instruction form of the census (explicit operand and implicit stack access separately, required permission from iced OpAccess), constructor and ELF segment configurations; denied => Err and memory unchanged, allowed => Ok.",
    "Forms that fail even with full permissions are C06's; conditional accesses may go either way; a guest store is required to succeed only when the area is readable and writable (x86 has no write-only pages and the operand helpers read the destination first).", "4/C09"),
  "C10": (ST, "explicit-state search (stateright BFS over the live Axecutor) against an interval-set model, hang-supervised",
-   "Depth 2 (thorough 3) from 5 initial machines (code at 0x1000/0x3000/0x400000, generated ELF, ELF + init_stack_program_start) over mem_init_area/zero (7 starts x 7 lengths incl. overlaps of exactly one byte), 'anywhere' allocations, init_stack, mem_resize_section, mem_prot and brk as guest syscalls, against an interval-set model with contents; in every state: areas pairwise disjoint and the area list equals the model. A transition that hangs or kills the process is attributed by the supervisor, recorded, masked and the search restarted.",
+   "Depth 3 from 5 initial machines (code at 0x1000/0x3000/0x400000, generated ELF, ELF + init_stack_program_start) over mem_init_area/zero (7 starts x 7 lengths incl. overlaps of exactly one byte), 'anywhere' allocations, init_stack, mem_resize_section, mem_prot and brk as guest syscalls, against an interval-set model with contents; in every state: areas pairwise disjoint and the area list equals the model. A transition that hangs or kills the process is attributed by the supervisor, recorded, masked and the search restarted.",
    "Rejection of a non-overlapping explicit request is not flagged; zero-length areas cover no address.", "4/C10"),
  "C11": (EN, "exhaustive enumeration of short programs x limits x driver schedules; schedule differential + loop-control model",
    "Every program of <= 4 (thorough 5) instructions over a 13-instruction alphabet (incl. a jump past the end of the code) x 6 instruction limits x stack/no stack x 3 hook configurations, driven by every schedule (steps only; k steps then execute() for every k): final fingerprint, result and error text must agree, and each run is stepped against a loop-control model built on an independent decode (count+1, fall-through, finish conditions, limit, steps after the end fail and change nothing).",
